@@ -162,15 +162,18 @@ def run_property(P, tier, seed, replay=None):
     if os.environ.get("VERIF_FORCE_ESCALATE"): changed = changed | {"(forced by VERIF_FORCE_ESCALATE)"}
     escal = {"source_differs_from_pinned": sorted(changed), "extra_rounds": 0, "extra_cases": 0}
     if changed and tier == "quick" and not replay and not oracle_fail and not disagreements:
-        budget = float(os.environ.get("VERIF_ESCALATE_S", "240"))
-        t2 = time.time()
+        budget = float(os.environ.get("VERIF_ESCALATE_S", "150"))
+        t2 = time.time(); last_round = 0.0
         for k_ in range(1, 9):
-            if time.time() - t2 > budget: break
+            # (do not start a round that, going by the previous one, would end after the budget)
+            if time.time() - t2 + last_round > budget: break
+            t3 = time.time()
             P2 = type(P)()      # (property objects keep per-run state keyed by case id)
             extra = P2.generate("quick", random.Random(seed * 7919 + k_))
             extra_cases = [Case("x%d%s" % (k_, c.cid), "x%d%s %s" % (k_, c.cid, c.line.split(" ", 1)[1]), c.gen, c.meta) for c in extra]
             evaluate(P2, extra_cases)
             ncases += len(extra_cases)
+            last_round = time.time() - t3
             escal["extra_rounds"] += 1; escal["extra_cases"] += len(extra_cases)
             if oracle_fail or disagreements:
                 Prep = P2      # the object whose generator produced the failing case describes it
